@@ -1,6 +1,7 @@
 package drive
 
 import (
+	"math/rand"
 	"encoding/json"
 	"fmt"
 	"net/url"
@@ -237,7 +238,7 @@ func streamConc(t *testing.T, o *Out, race bool) {
 	r := newRand()
 	n := envInt("VERIF_N", 20)
 	var env *apiEnv
-	var tenantA, tenantB, tenantC *apiEnv
+	var tenantA, tenantB, tenantC, tenantD *apiEnv
 	var tenantRelease func()
 	tenantUses := 0
 	defer func() {
@@ -266,15 +267,43 @@ func streamConc(t *testing.T, o *Out, race bool) {
 				if tenantRelease != nil {
 					tenantRelease()
 				}
-				tenantA, tenantB, tenantC, tenantRelease = newTenantAPIEnv3(t)
+				tenantA, tenantB, tenantC, tenantD, tenantRelease = newTenantAPIEnv3(t)
 				tenantUses = 0
 			}
 			tenantUses++
 			envA, envB := tenantA, tenantB
-			if err := envA.seedState(r); err != nil {
+			// tenant D lives in a network of its own and is given, through its own write path, the
+			// state tenant A gets through A's: the two answer the same requests alike
+			stateSeed := r.Int63()
+			if err := envA.seedState(rand.New(rand.NewSource(stateSeed))); err != nil {
+				t.Fatal(err)
+			}
+			if err := tenantD.seedState(rand.New(rand.NewSource(stateSeed))); err != nil {
 				t.Fatal(err)
 			}
 			reqs = append(envA.concRequests(r, 2+nreq/2), envB.concRequests(r, 2+nreq/2)...)
+			for k := 0; k < 3; k++ {
+				obj, sub := []string{"a", "b", "c", "d"}[r.Intn(4)], []string{"alice", "bob", "eve"}[r.Intn(3)]
+				q := url.Values{"namespace": {"Doc"}, "object": {obj}, "relation": {[]string{"view", "viewers", "ok"}[r.Intn(3)]}, "subject_id": {sub}}
+				target := check.OpenAPIRouteBase + "?" + q.Encode()
+				lq := relationtuple.ReadRouteBase + "?" + url.Values{"namespace": {"Doc"}, "object": {obj}}.Encode()
+				ea, ed := envA, tenantD
+				reqs = append(reqs, concReq{"network-twin " + q.Encode(), func() string {
+					c1, b1, p1 := ea.do(ea.read, "GET", target, nil)
+					c2, b2, p2 := ed.do(ed.read, "GET", target, nil)
+					x, y := canonBody(c1, b1)+p1, canonBody(c2, b2)+p2
+					if x != y {
+						return "TENANTS-DIFFER check(A)=" + x + " check(D)=" + y
+					}
+					// what was written under a name is found under that name
+					c1, b1, _ = ea.do(ea.read, "GET", lq, nil)
+					c2, b2, _ = ed.do(ed.read, "GET", lq, nil)
+					if la, ld := canonBody(c1, b1), canonBody(c2, b2); la != ld {
+						return fmt.Sprintf("TENANTS-DIFFER list(A)=%.150s list(D)=%.150s", la, ld)
+					}
+					return x
+				}})
+			}
 			reqs = append(reqs, tenantC.concRequests(r, 2+nreq/3)...)
 			// tenant C's permission Doc#see is tenant A's Doc#view under another name, over the same
 			// stored state: the two answer alike, whoever was served first
